@@ -120,6 +120,19 @@ def check_scale(ctx, cls, tonic, octaves, semitones=None):
                   dict(w, degree=k, direction="d"), desc[-k], repr(v), mechanism="degree-d")
     st, v = ctx.call(len, s)
     ctx.check("len/eq: length follows the note list", st == "ok" and v == len(asc), w, len(asc), v, mechanism="len")
+    if octaves == 1 and cls != "Chromatic" and hasattr(s, "octaves"):
+        # the same object after its public attributes were changed: lookups follow the lists again
+        s.octaves = 2
+        st, asc2 = ctx.call(s.ascending)
+        if st == "ok" and len(asc2) > 8:
+            st, v = ctx.call(s.degree, 8)
+            ctx.check("degree: ascending lookup agrees with the ascending list", st == "ok" and v == asc2[7], dict(w, octaves_set_to=2, degree=8),
+                      asc2[7], repr(v), mechanism="degree-after-attribute-change")
+            st, d2 = ctx.call(s.descending)
+            st, v = ctx.call(s.degree, 2, "d")
+            ctx.check("degree: descending lookup agrees with the descending list", st == "ok" and isinstance(d2, list) and v == d2[-2],
+                      dict(w, octaves_set_to=2, degree=2), d2[-2] if isinstance(d2, list) else None, repr(v), mechanism="degree-after-attribute-change")
+        s.octaves = 1
     ctx.case((cls, tonic, octaves, semitones), nontrivial=(tonic not in ("C", "a") or octaves > 1))
     return s, asc, desc
 
@@ -204,10 +217,12 @@ def run(shard, ctx):
         for t in tests:
             exp = sorted(nm for (nm, a, d) in SC if set(t) <= a or set(t) <= d)
             arg = list(t)
-            st, got = ctx.call(scales.determine, arg)
+            form = ("list", "list", "tuple", "set", "iterator", "generator")[len(tests) % 6 if False else (hash(tuple(t)) % 6)]
+            given = {"list": arg, "tuple": tuple(arg), "set": set(arg), "iterator": iter(arg), "generator": (x for x in arg)}[form]
+            st, got = ctx.call(scales.determine, given)
             ok = st == "ok" and isinstance(got, list) and sorted(got) == exp
             ctx.check("recognition: exactly the major/minor-family scales containing every given note", ok,
-                      {"notes": t}, exp, got if st != "ok" else {"missing": sorted(set(exp) - set(got))[:6],
+                      {"notes": t, "given_as": form}, exp, got if st != "ok" else {"missing": sorted(set(exp) - set(got))[:6],
                                                                 "extra": sorted(set(got) - set(exp))[:6],
                                                                 "n": len(got)}, mechanism="recognition")
             ctx.check("recognition: argument list unchanged", arg == list(t), {"notes": t}, t, arg)
